@@ -296,6 +296,86 @@ type reseed struct {
 	why string
 }
 
+// rangesGeneratedPods: x is a local whose every assignment in the function is the first result of k8s.PodsFromWorkloadObject,
+// which returns at least one pod whenever its error is nil (rule E2-N4-len); the error return precedes any use because a
+// range over the nil slice of the error path assigns nothing either way and the seeded variable is only reported after the loop.
+func (f *nilFunc) rangesGeneratedPods(x ast.Expr, fm facts.Formula) bool {
+	id, ok := ast.Unparen(x).(*ast.Ident)
+	if !ok {
+		return false
+	}
+	o, ok := f.info.ObjectOf(id).(*types.Var)
+	gen := f.a.p.Func(core.PkgK8s, "", "PodsFromWorkloadObject")
+	if !ok || gen == nil || o.IsField() || o.Parent() == nil || o.Parent() == o.Pkg().Scope() {
+		return false
+	}
+	if _, isParam := f.params[o]; isParam {
+		return false
+	}
+	n, good := 0, true
+	var errObj types.Object
+	ast.Inspect(f.fd.Decl.Body, func(m ast.Node) bool {
+		switch s := m.(type) {
+		case *ast.AssignStmt:
+			for i, l := range s.Lhs {
+				lid, ok := ast.Unparen(l).(*ast.Ident)
+				if !ok || f.info.ObjectOf(lid) != o {
+					continue
+				}
+				n++
+				c, isCall := ast.Unparen(s.Rhs[0]).(*ast.CallExpr)
+				if i != 0 || len(s.Rhs) != 1 || len(s.Lhs) != 2 || !isCall || core.Callee(f.info, c) != gen.Obj {
+					good = false
+					continue
+				}
+				if eid, ok := ast.Unparen(s.Lhs[1]).(*ast.Ident); ok {
+					errObj = f.info.ObjectOf(eid)
+				}
+			}
+		case *ast.UnaryExpr:
+			if s.Op == token.AND {
+				if lid, ok := ast.Unparen(s.X).(*ast.Ident); ok && f.info.ObjectOf(lid) == o {
+					good = false
+				}
+			}
+		}
+		return true
+	})
+	if n != 1 || !good || errObj == nil {
+		return false
+	}
+	// on every path reaching the loop the error of that call is known to be nil
+	ev, ok := errObj.(*types.Var)
+	return ok && facts.Entails(fm, facts.Atom("nil:"+f.w.PathOfVar(ev)))
+}
+
+// reassigned: the variable is assigned (or its address taken) somewhere in the function body.
+func (f *nilFunc) reassigned(o types.Object) bool {
+	found := false
+	ast.Inspect(f.fd.Decl.Body, func(m ast.Node) bool {
+		switch s := m.(type) {
+		case *ast.AssignStmt:
+			for _, l := range s.Lhs {
+				if id, ok := ast.Unparen(l).(*ast.Ident); ok && f.info.ObjectOf(id) == o {
+					found = true
+				}
+			}
+		case *ast.UnaryExpr:
+			if id, ok := ast.Unparen(s.X).(*ast.Ident); ok && s.Op == token.AND && f.info.ObjectOf(id) == o {
+				found = true
+			}
+		case *ast.RangeStmt:
+			for _, l := range []ast.Expr{s.Key, s.Value} {
+				if id, ok := l.(*ast.Ident); ok && s.Tok == token.ASSIGN && f.info.ObjectOf(id) == o {
+					found = true
+				}
+			}
+		}
+		return !found
+	})
+	return found
+}
+
 func (a *nilAnalysis) analyse(fd *core.FuncDecl) {
 	f := &nilFunc{a: a, fd: fd, guardVar: map[types.Object]types.Object{}, seedKind: map[types.Object]string{}, rangeReseed: map[*ast.RangeStmt]reseed{}, info: fd.Pkg.TypesInfo, params: map[types.Object]int{}, seeded: map[types.Object]string{}, coErr: map[types.Object]string{},
 		defs: map[types.Object]ast.Expr{}, stores: map[string]bool{}, okVars: map[types.Object]string{}, valVars: map[types.Object]types.Object{}}
@@ -337,6 +417,18 @@ func (a *nilAnalysis) analyse(fd *core.FuncDecl) {
 				if o := f.info.ObjectOf(id); o != nil {
 					if why, was := f.seeded[o]; was {
 						delete(f.seeded, o)
+						if f.rangesGeneratedPods(rs.X, fm) {
+							// the loop runs at least once (premise E2-N4-len): after it the variable holds an element
+							f.a.counts["N4-len-range"]++
+							return
+						}
+						if pid, ok := ast.Unparen(rs.X).(*ast.Ident); ok && !fd.Obj.Exported() {
+							if idx, isParam := f.params[f.info.ObjectOf(pid)]; isParam && !f.reassigned(f.info.ObjectOf(pid)) {
+								// the ranged slice is a parameter of an internal function: its callers must pass a non-empty one
+								f.addRequires(idx, "@nonEmpty", f.a.p.Pos(rs.Pos()))
+								return
+							}
+						}
 						f.rangeReseed[rs] = reseed{o, why + " and assigned only by a range loop that may not run"}
 					}
 				}
@@ -1035,6 +1127,33 @@ func (f *nilFunc) argObligation(c *ast.CallExpr, callee *types.Func, idx int, su
 			f.a.r.Bad("E2-N3", cst, f.a.p.Pos(c.Pos()),
 				fmt.Sprintf("%s dereferences a peer-type getter of this argument (at %s) and the call site does not establish the peer type (%s)", core.FuncKey(callee), witness, suffix),
 				"caller: "+f.fd.Key(), "call: "+core.ExprStr(c)+" at "+f.a.p.Pos(c.Pos()), "facts in scope: "+facts.StripVersions(facts.String(fm)))
+		}
+		return
+	}
+	if suffix == "@nonEmpty" {
+		cst := f.construct(fmt.Sprintf("%s passed to %s (which uses its loop variable after ranging over this argument)", core.Stable(f.info, arg), core.FuncKey(callee)), "N4")
+		if cl, ok := arg.(*ast.CompositeLit); ok && len(cl.Elts) > 0 {
+			if f.a.report {
+				f.a.r.OK("E2-N4", cst, f.a.p.Pos(c.Pos()), "a literal with at least one element")
+			}
+			return
+		}
+		if f.rangesGeneratedPods(arg, fm) {
+			if f.a.report {
+				f.a.r.OK("E2-N4", cst, f.a.p.Pos(c.Pos()), "the pods generated for a workload: at least one (premise E2-N4-len), and the error of the generating call is nil here")
+			}
+			return
+		}
+		if id, ok := arg.(*ast.Ident); ok && !f.fd.Obj.Exported() {
+			if pi, isParam := f.params[f.info.ObjectOf(id)]; isParam && !f.reassigned(f.info.ObjectOf(id)) {
+				f.addRequires(pi, "@nonEmpty", f.a.p.Pos(c.Pos()))
+				return
+			}
+		}
+		if f.a.report {
+			f.a.r.Bad("E2-N4", cst, f.a.p.Pos(c.Pos()),
+				fmt.Sprintf("%s ranges over this argument with a variable declared outside the loop and uses that variable afterwards (at %s); the call site does not show that the slice is non-empty, and with an empty slice the variable stays nil", core.FuncKey(callee), witness),
+				"caller: "+f.fd.Key(), "call: "+core.ExprStr(c)+" at "+f.a.p.Pos(c.Pos()))
 		}
 		return
 	}
@@ -1759,6 +1878,22 @@ func constInt64(info *types.Info, e ast.Expr) (int64, bool) {
 	return v, true
 }
 
+// hasCompositeResult: some return statement of fd has a composite literal among its results.
+func hasCompositeResult(fd *core.FuncDecl) bool {
+	found := false
+	ast.Inspect(fd.Decl.Body, func(n ast.Node) bool {
+		if ret, ok := n.(*ast.ReturnStmt); ok {
+			for _, res := range ret.Results {
+				if _, isCl := ast.Unparen(res).(*ast.CompositeLit); isCl {
+					found = true
+				}
+			}
+		}
+		return !found
+	})
+	return found
+}
+
 // ConstructorCompleteness is rule E2-N12. A pointer field of a module struct that is dereferenced somewhere without
 // being a declared may-be-nil field (table n2Fields) is assumed non-nil by the code; then every construction of the
 // owning struct - a composite literal of it, or of a struct that contains it by value - must set the field (in the
@@ -1855,9 +1990,28 @@ func ConstructorCompleteness(p *core.Program, r *core.Report) {
 	n := 0
 	for _, fd := range p.Funcs {
 		info := fd.Pkg.TypesInfo
+		// a literal that is itself a result of a return whose error is non-nil is a placeholder: callers do not use a value
+		// co-returned with an error (that convention is rule N6)
+		placeholder := map[*ast.CompositeLit]bool{}
+		if hasCompositeResult(fd) {
+			fd := fd
+			ew := facts.NewWalker(info)
+			ew.OnStmt = func(st ast.Stmt, f facts.Formula) {
+				ret, isRet := st.(*ast.ReturnStmt)
+				if !isRet || ew.FuncLitDepth != 0 || len(ret.Results) < 2 || !IsErrorReturn(p, ew, fd.Obj, ret, f) {
+					return
+				}
+				for _, res := range ret.Results[:len(ret.Results)-1] {
+					if cl, isCl := ast.Unparen(res).(*ast.CompositeLit); isCl {
+						placeholder[cl] = true
+					}
+				}
+			}
+			ew.WalkBody(fd.Decl.Body, nil)
+		}
 		ast.Inspect(fd.Decl.Body, func(nd ast.Node) bool {
 			cl, ok := nd.(*ast.CompositeLit)
-			if !ok {
+			if !ok || placeholder[cl] {
 				return true
 			}
 			nt := core.NamedOf(info.TypeOf(cl))
